@@ -990,5 +990,11 @@ def shrink(c):
                 yield dict(c, reads=[dict(r, req=r['req'][:i] + r['req'][i + 1:])])
 
 
+def extra_obligations(work):
+    # T-int: the integer helpers this model mirrors, re-translated from the current source
+    import translate_int
+    return translate_int.obligations(work, translate_int.FOR['C02'])
+
+
 if __name__ == '__main__':
     sys.exit(common.main(sys.modules[__name__]))
